@@ -333,6 +333,16 @@ def binop(eng, op, a, b):
         return a * b
     if isinstance(b, (list, tuple)) and isinstance(op, ast.Mult) and isinstance(a, int):
         return a * b
+    if isinstance(op, ast.Mult) and ((isinstance(a, list) and T.is_sym(b)) or (isinstance(b, list) and T.is_sym(a))):
+        # Python sequence repetition by a symbolic count (NOT element-wise multiplication): a list of max(n, 0) * len(seq) items
+        seq, n = (a, b) if isinstance(a, list) else (b, a)
+        if not (isinstance(n, z3.ArithRef) and n.is_int()):
+            raise I.PyRaise("TypeError", ("can't multiply sequence by non-int",))
+        from . import lazyseq as LZ
+        m = len(seq)
+        items = list(seq)
+        length = z3.If(n > 0, n * m, z3.IntVal(0))
+        return LZ.LazySeq(length, lambda i: items[0] if m == 1 else select_const(T.mod(i, m), [lambda x=x: x for x in items]))
     if isinstance(a, I.ComplexVal) or isinstance(b, I.ComplexVal):
         return complex_binop(eng, op, a, b)
     if isinstance(op, (ast.BitAnd, ast.BitOr)):
